@@ -1,12 +1,909 @@
-//! Family `binser`: C01 C02 — serialize / parse / canonical image.  (stub)
-#![allow(unused)]
+//! Family `binser`: C01 C02 — serialize / parse / canonical image.
+//!
+//! Case lines (fields separated by one space; `~` = empty list, `-` = empty byte string):
+//!   <id> codec <utf8-hex>                    sub-codec self-check, encode direction
+//!   <id> decode <sjis-hex>                   sub-codec self-check, decode direction
+//!   <id> faithful                            `Faithful` assumption re-validated on all of Unicode (thorough)
+//!   <id> ser <LE|BE> <data> <S> <P> <L> <C>  stream 1: content built through shuffled API calls
+//!   <id> serp <LE|BE> <data> <S> <P> <L> <C> same as `ser`, additionally repeated in 4 fresh child processes
+//!   <id> img <LE|BE> <image> <data> <S> <P> <L>   stream 2: foreign conforming image of the content
+//!   <id> raw <LE|BE> <image>                 malformed / mutated image (outside the property: model tie only)
+//! Content fields:  S = `addr:hex,…` strings, P = `addr:target,…` pointers,
+//!   L = `addr:hex|hex,…` label buckets (an empty bucket is `addr:`), C = `hex:addr|addr,…` c-strings.
+//!   The order inside a field is the iteration order handed to the model (shuffled by the generator).
 use crate::util::*;
+use encoding_rs::SHIFT_JIS;
+use mila::{ArchiveError, BinArchive, EncodedStringsError, Endian};
 
-pub fn gen(_seed: u64, _tier: &str) -> Vec<String> {
-    Vec::new()
+// ------------------------------------------------------------------------------------------------
+// sub-alphabet of Shift-JIS that the Lean driver's `sjisSub` implements
+// ------------------------------------------------------------------------------------------------
+
+pub fn alphabet() -> Vec<char> {
+    let mut v: Vec<char> = Vec::new();
+    for cp in 0x01u32..0x80 {
+        v.push(char::from_u32(cp).unwrap());
+    }
+    for (lo, hi) in [(0xFF61u32, 0xFF9F), (0x3041, 0x3093), (0x30A1, 0x30F6)] {
+        for cp in lo..=hi {
+            v.push(char::from_u32(cp).unwrap());
+        }
+    }
+    v
+}
+
+fn sjis(s: &str) -> Vec<u8> {
+    let (b, _, bad) = SHIFT_JIS.encode(s);
+    assert!(!bad, "generator produced an unencodable string");
+    b.into_owned()
+}
+
+/// The `Faithful` assumption (DESIGN M4), measured on every Unicode scalar value.
+fn faithful_report() -> String {
+    let mut encodable = 0u32;
+    let mut lossy: Vec<u32> = Vec::new();
+    let mut nul = 0u32;
+    let mut single = [false; 256];
+    let mut lead = [false; 256];
+    for cp in 1u32..0x110000 {
+        let ch = match char::from_u32(cp) {
+            Some(c) => c,
+            None => continue,
+        };
+        let s = ch.to_string();
+        let (b, _, bad) = SHIFT_JIS.encode(&s);
+        if bad {
+            continue;
+        }
+        encodable += 1;
+        if b.contains(&0) {
+            nul += 1;
+        }
+        if b.len() == 1 {
+            single[b[0] as usize] = true;
+        } else {
+            lead[b[0] as usize] = true;
+        }
+        let (d, _, derr) = SHIFT_JIS.decode(&b);
+        if derr || d != s {
+            lossy.push(cp);
+        }
+    }
+    let disjoint = (0..256).all(|i| !(single[i] && lead[i]));
+    let l: Vec<String> = lossy.iter().map(|c| format!("{:x}", c)).collect();
+    format!(
+        "ok encodable={} lossy={} nul={} disjoint={}",
+        encodable,
+        if l.is_empty() { "~".to_string() } else { l.join(",") },
+        nul,
+        disjoint as u8
+    )
+}
+
+// ------------------------------------------------------------------------------------------------
+// content
+// ------------------------------------------------------------------------------------------------
+
+#[derive(Clone, Debug, Default)]
+pub struct Content {
+    pub big: bool,
+    pub data: Vec<u8>,
+    pub strings: Vec<(usize, String)>,
+    pub pointers: Vec<(usize, usize)>,
+    pub labels: Vec<(usize, Vec<String>)>,
+    pub cstrings: Vec<(String, Vec<usize>)>,
+}
+
+fn join_or_tilde(v: Vec<String>) -> String {
+    if v.is_empty() {
+        "~".to_string()
+    } else {
+        v.join(",")
+    }
+}
+
+impl Content {
+    fn endian(&self) -> Endian {
+        if self.big {
+            Endian::Big
+        } else {
+            Endian::Little
+        }
+    }
+    fn fields(&self, with_c: bool) -> String {
+        let s = join_or_tilde(self.strings.iter().map(|(a, s)| format!("{}:{}", a, hexs(s))).collect());
+        let p = join_or_tilde(self.pointers.iter().map(|(a, t)| format!("{}:{}", a, t)).collect());
+        let l = join_or_tilde(
+            self.labels
+                .iter()
+                .map(|(a, b)| format!("{}:{}", a, b.iter().map(|n| hexs(n)).collect::<Vec<_>>().join("|")))
+                .collect(),
+        );
+        let mut out = format!("{} {} {} {}", hex(&self.data), s, p, l);
+        if with_c {
+            let c = join_or_tilde(
+                self.cstrings
+                    .iter()
+                    .map(|(s, a)| format!("{}:{}", hexs(s), a.iter().map(|x| x.to_string()).collect::<Vec<_>>().join("|")))
+                    .collect(),
+            );
+            out.push(' ');
+            out.push_str(&c);
+        }
+        out
+    }
+    fn parse(big: bool, f: &[&str], with_c: bool) -> Content {
+        let list = |s: &str| -> Vec<String> {
+            if s == "~" {
+                Vec::new()
+            } else {
+                s.split(',').map(|x| x.to_string()).collect()
+            }
+        };
+        let mut c = Content { big, data: unhex(f[0]), ..Default::default() };
+        for e in list(f[1]) {
+            let (a, s) = e.split_once(':').unwrap();
+            c.strings.push((a.parse().unwrap(), unhexs(s)));
+        }
+        for e in list(f[2]) {
+            let (a, t) = e.split_once(':').unwrap();
+            c.pointers.push((a.parse().unwrap(), t.parse().unwrap()));
+        }
+        for e in list(f[3]) {
+            let (a, b) = e.split_once(':').unwrap();
+            let bucket = if b.is_empty() { Vec::new() } else { b.split('|').map(unhexs).collect() };
+            c.labels.push((a.parse().unwrap(), bucket));
+        }
+        if with_c {
+            for e in list(f[4]) {
+                let (s, a) = e.split_once(':').unwrap();
+                c.cstrings.push((unhexs(s), a.split('|').map(|x| x.parse().unwrap()).collect()));
+            }
+        }
+        c
+    }
+}
+
+fn rand_string(rng: &mut Rng, alpha: &[char]) -> String {
+    let len = match rng.below(10) {
+        0 => 0,
+        1..=5 => rng.range(1, 4),
+        6..=8 => rng.range(5, 9),
+        _ => rng.range(10, 24),
+    };
+    let non_ascii = rng.chance(3, 10);
+    let mut s = String::new();
+    for _ in 0..len {
+        if non_ascii && rng.chance(1, 2) {
+            // any member of the sub-alphabet (includes double-byte codes with an ASCII trail byte)
+            s.push(alpha[127 + rng.below(alpha.len() as u64 - 127) as usize]);
+        } else if rng.chance(1, 8) {
+            s.push(alpha[rng.below(127) as usize]); // any ASCII incl. control characters, ',', ':' …
+        } else {
+            s.push((b'a' + rng.below(6) as u8) as char);
+        }
+    }
+    s
+}
+
+/// Random content inside the property's quantifier (DESIGN §6 C01 T).
+pub fn gen_content(rng: &mut Rng, max_cells: u64, allow_c: bool) -> Content {
+    let alpha = alphabet();
+    let ncells = if rng.chance(1, 12) { 0 } else { rng.range(0, max_cells) } as usize;
+    let tail = if rng.chance(1, 2) { 0 } else { rng.range(1, 3) } as usize;
+    let size = 4 * ncells + tail;
+    let mut c = Content { big: rng.chance(1, 2), ..Default::default() };
+    c.data = if rng.chance(1, 6) { vec![0; size] } else { rng.bytes(size) };
+    // pool of strings shared between strings, label names and c-strings
+    let npool = rng.range(1, 6) as usize;
+    let mut pool: Vec<String> = (0..npool).map(|_| rand_string(rng, &alpha)).collect();
+    if rng.chance(1, 4) {
+        pool.push(String::new());
+    }
+    if rng.chance(1, 4) {
+        // prefix / extension pairs stress the lexicographic orders
+        let base = pool[0].clone();
+        pool.push(format!("{}a", base));
+    }
+    let use_c = allow_c && rng.chance(1, 2);
+    let unaligned = rng.chance(1, 6);
+    let density = rng.range(1, 9);
+    let mut c_uses: Vec<(usize, usize)> = Vec::new(); // (pool index, address) in call order
+    let mut pos = 0usize;
+    while pos + 4 <= size {
+        if rng.below(10) < density {
+            match rng.below(if use_c { 10 } else { 7 }) {
+                0..=3 => c.strings.push((pos, rng.pick(&pool).clone())),
+                4..=6 => {
+                    let t = match rng.below(6) {
+                        0 => size,
+                        1 => 0,
+                        2 => pos,
+                        _ => rng.below(size as u64 + 1) as usize,
+                    };
+                    c.pointers.push((pos, t))
+                }
+                _ => c_uses.push((rng.below(pool.len() as u64) as usize, pos)),
+            }
+            pos += 4;
+        } else {
+            pos += if unaligned { rng.range(1, 4) as usize } else { 4 };
+        }
+    }
+    for (pi, addr) in c_uses {
+        let s = pool[pi].clone();
+        match c.cstrings.iter_mut().find(|(t, _)| *t == s) {
+            Some((_, b)) => b.push(addr),
+            None => c.cstrings.push((s, vec![addr])),
+        }
+    }
+    // labels: any address <= size, several per address, names shared with strings, repeated names
+    let nlab = if rng.chance(1, 5) { 0 } else { rng.range(1, 10) };
+    let lab_unaligned = rng.chance(1, 4);
+    for _ in 0..nlab {
+        let addr = match rng.below(6) {
+            0 => size,
+            1 => 0,
+            _ => {
+                let a = rng.below(size as u64 + 1) as usize;
+                if lab_unaligned {
+                    a
+                } else {
+                    a - a % 4
+                }
+            }
+        };
+        if c.labels.iter().any(|(a, _)| *a == addr) {
+            continue;
+        }
+        let n = match rng.below(12) {
+            0 => 0,
+            1..=7 => 1,
+            8..=10 => 2,
+            _ => 3,
+        };
+        let bucket: Vec<String> = (0..n)
+            .map(|_| if rng.chance(2, 3) { rng.pick(&pool).clone() } else { rand_string(rng, &alpha) })
+            .collect();
+        c.labels.push((addr, bucket));
+    }
+    rng.shuffle(&mut c.strings);
+    rng.shuffle(&mut c.pointers);
+    rng.shuffle(&mut c.labels);
+    rng.shuffle(&mut c.cstrings);
+    c
+}
+
+// ------------------------------------------------------------------------------------------------
+// building an archive through the public API, in a shuffled call order
+// ------------------------------------------------------------------------------------------------
+
+#[derive(Clone, Debug)]
+enum Op {
+    Bytes(usize, Vec<u8>),
+    Str(usize, Option<String>),
+    Ptr(usize, Option<usize>),
+    Label(usize, String),
+    Labels(usize, Vec<String>),
+    DelLabel(usize, usize),
+    CStr(usize, String),
+}
+
+fn build(c: &Content, rng: &mut Rng) -> BinArchive {
+    let mut a = BinArchive::new(c.endian());
+    let size = c.data.len();
+    // allocation in 1..3 chunks
+    let mut left = size;
+    while left > 0 {
+        let n = if rng.chance(1, 2) { left } else { rng.range(1, left as u64) as usize };
+        a.allocate_at_end(n);
+        left -= n;
+    }
+    // chains of operations whose relative order matters; chains are interleaved at random
+    let mut chains: Vec<Vec<Op>> = Vec::new();
+    if size > 0 {
+        if rng.chance(1, 2) {
+            chains.push(vec![Op::Bytes(0, c.data.clone())]);
+        } else {
+            let cut = rng.range(1, size as u64) as usize;
+            if cut < size {
+                chains.push(vec![Op::Bytes(cut, c.data[cut..].to_vec())]);
+            }
+            chains.push(vec![Op::Bytes(0, c.data[..cut].to_vec())]);
+        }
+    }
+    for (addr, s) in &c.strings {
+        let mut ch = Vec::new();
+        match rng.below(8) {
+            0 => ch.push(Op::Str(*addr, Some("overwritten".to_string()))),
+            1 => {
+                ch.push(Op::Ptr(*addr, Some(0)));
+                ch.push(Op::Ptr(*addr, None));
+            }
+            _ => {}
+        }
+        ch.push(Op::Str(*addr, Some(s.clone())));
+        chains.push(ch);
+    }
+    for (addr, t) in &c.pointers {
+        let mut ch = Vec::new();
+        match rng.below(8) {
+            0 => ch.push(Op::Ptr(*addr, Some(*t + 4))),
+            1 => {
+                ch.push(Op::Str(*addr, Some("x".to_string())));
+                ch.push(Op::Str(*addr, None));
+            }
+            _ => {}
+        }
+        ch.push(Op::Ptr(*addr, Some(*t)));
+        chains.push(ch);
+    }
+    for (addr, bucket) in &c.labels {
+        let mut ch = Vec::new();
+        if bucket.is_empty() {
+            if rng.chance(1, 2) && *addr + 4 <= size {
+                ch.push(Op::Label(*addr, "gone".to_string()));
+                ch.push(Op::DelLabel(*addr, 0));
+            } else {
+                ch.push(Op::Labels(*addr, Vec::new()));
+            }
+        } else if rng.chance(1, 4) {
+            ch.push(Op::Labels(*addr, bucket.clone()));
+        } else {
+            for n in bucket {
+                ch.push(Op::Label(*addr, n.clone()));
+            }
+        }
+        chains.push(ch);
+    }
+    for (s, addrs) in &c.cstrings {
+        chains.push(addrs.iter().map(|x| Op::CStr(*x, s.clone())).collect());
+    }
+    let mut order: Vec<usize> = Vec::new();
+    for (i, ch) in chains.iter().enumerate() {
+        for _ in 0..ch.len() {
+            order.push(i);
+        }
+    }
+    rng.shuffle(&mut order);
+    let mut next = vec![0usize; chains.len()];
+    for i in order {
+        let op = chains[i][next[i]].clone();
+        next[i] += 1;
+        match op {
+            Op::Bytes(at, b) => a.write_bytes(at, &b).unwrap(),
+            Op::Str(at, s) => a.write_string(at, s.as_deref()).unwrap(),
+            Op::Ptr(at, t) => a.write_pointer(at, t).unwrap(),
+            Op::Label(at, n) => a.write_label(at, &n).unwrap(),
+            Op::Labels(at, b) => a.write_labels(at, b).unwrap(),
+            Op::DelLabel(at, i) => a.delete_label(at, i).unwrap(),
+            Op::CStr(at, s) => a.write_c_string(at, s).unwrap(),
+        }
+    }
+    a
+}
+
+// ------------------------------------------------------------------------------------------------
+// observation of an archive through the public API (canonical text)
+// ------------------------------------------------------------------------------------------------
+
+pub fn err_class(e: &ArchiveError) -> &'static str {
+    match e {
+        ArchiveError::ArchiveTooSmall => "TooSmall",
+        ArchiveError::SizeMismatch => "Other",
+        ArchiveError::OutOfBoundsAddress(_, _) => "OutOfBounds",
+        ArchiveError::UnalignedValue(_, _) => "Unaligned",
+        ArchiveError::LabelIndexOutOfBounds(_, _) => "LabelIndex",
+        ArchiveError::IOError(_) => "Io",
+        ArchiveError::EndianAwareIOError(_) => "Io",
+        ArchiveError::EncodingStringsError(EncodedStringsError::UnterminatedString) => "Unterminated",
+        ArchiveError::EncodingStringsError(EncodedStringsError::EncodingFailed(_, _)) => "Encoding",
+        ArchiveError::EncodingStringsError(EncodedStringsError::DecodingFailed(_)) => "Decoding",
+        ArchiveError::EncodingStringsError(EncodedStringsError::IOError(_)) => "Io",
+        _ => "Other",
+    }
+}
+
+fn observe(b: &BinArchive, c_cells: &[usize]) -> String {
+    let size = b.size();
+    let data = if size == 0 { Vec::new() } else { b.read_bytes(0, size).unwrap().to_vec() };
+    let mut s: Vec<String> = Vec::new();
+    let mut p: Vec<String> = Vec::new();
+    for addr in 0..size {
+        if addr + 4 > size {
+            break;
+        }
+        if let Some(t) = b.read_string(addr).unwrap() {
+            s.push(format!("{}:{}", addr, hexs(&t)));
+        }
+        if let Some(t) = b.read_pointer(addr).unwrap() {
+            p.push(format!("{}:{}", addr, t));
+        }
+    }
+    let mut cs: Vec<String> = Vec::new();
+    for addr in c_cells {
+        cs.push(match b.read_c_string(*addr) {
+            Ok(Some(t)) => format!("{}:{}", addr, hexs(&t)),
+            Ok(None) => format!("{}:none", addr),
+            Err(e) => format!("{}:!{}", addr, err_class(&e)),
+        });
+    }
+    let l: Vec<String> = b.all_labels().iter().map(|(a, n)| format!("{}:{}", a, hexs(n))).collect();
+    format!(
+        "size={} data={} S={} P={} CS={} L={}",
+        size,
+        hex(&data),
+        join_or_tilde(s),
+        join_or_tilde(p),
+        join_or_tilde(cs),
+        join_or_tilde(l)
+    )
+}
+
+// ------------------------------------------------------------------------------------------------
+// spec-side writer of *foreign* conforming images (mirrors Spec.ArchiveImage.Conforms, not mila)
+// ------------------------------------------------------------------------------------------------
+
+fn put32(big: bool, v: usize) -> [u8; 4] {
+    if big {
+        (v as u32).to_be_bytes()
+    } else {
+        (v as u32).to_le_bytes()
+    }
+}
+
+pub fn foreign_image(c: &Content, rng: &mut Rng) -> Vec<u8> {
+    assert!(c.cstrings.is_empty());
+    let alpha = alphabet();
+    let big = c.big;
+    // pointer table: any order of the annotated cells
+    let mut ptab: Vec<usize> = c.pointers.iter().map(|p| p.0).chain(c.strings.iter().map(|p| p.0)).collect();
+    match rng.below(4) {
+        0 => ptab.sort(),
+        1 => {
+            ptab.sort();
+            ptab.reverse()
+        }
+        _ => rng.shuffle(&mut ptab),
+    }
+    // label table: any interleaving of the per-address lists that keeps each list's own order
+    let mut order: Vec<usize> = Vec::new();
+    for (i, (_, b)) in c.labels.iter().enumerate() {
+        for _ in 0..b.len() {
+            order.push(i);
+        }
+    }
+    rng.shuffle(&mut order);
+    let mut next = vec![0usize; c.labels.len()];
+    let mut ltab: Vec<(usize, String)> = Vec::new();
+    for i in order {
+        ltab.push((c.labels[i].0, c.labels[i].1[next[i]].clone()));
+        next[i] += 1;
+    }
+    let text_start = c.data.len() + 4 * ptab.len() + 8 * ltab.len();
+    // text section: every needed string at least once, copies, junk, suffix sharing, any order
+    let mut needed: Vec<String> = Vec::new();
+    for s in c.strings.iter().map(|p| &p.1).chain(ltab.iter().map(|p| &p.1)) {
+        if !needed.contains(s) {
+            needed.push(s.clone());
+        }
+    }
+    let strings_first = rng.chance(1, 2);
+    if strings_first {
+        // the library stores label names first; here strings come first
+    } else {
+        needed.reverse();
+    }
+    rng.shuffle(&mut needed[..]);
+    let mut text: Vec<u8> = Vec::new();
+    let mut places: Vec<(String, usize)> = Vec::new();
+    if rng.chance(1, 3) {
+        text.extend_from_slice(&sjis(&rand_string(rng, &alpha)));
+        text.push(0);
+    }
+    let mut pending: Vec<String> = needed.clone();
+    // duplicates
+    for s in &needed {
+        if rng.chance(1, 4) {
+            pending.push(s.clone());
+        }
+    }
+    rng.shuffle(&mut pending[..]);
+    for s in pending {
+        if rng.chance(1, 5) {
+            // suffix sharing: the string is the tail of a longer stored string
+            let pre = sjis(&rand_string(rng, &alpha));
+            text.extend_from_slice(&pre);
+        } else if rng.chance(1, 8) {
+            text.extend(std::iter::repeat(0u8).take(rng.range(1, 3) as usize));
+        }
+        places.push((s.clone(), text.len()));
+        text.extend_from_slice(&sjis(&s));
+        text.push(0);
+    }
+    if rng.chance(1, 4) {
+        let k = rng.range(1, 6) as usize;
+        text.extend_from_slice(&rng.bytes(k));
+    }
+    let place = |rng: &mut Rng, s: &String| -> usize {
+        let opts: Vec<usize> = places.iter().filter(|p| &p.0 == s).map(|p| p.1).collect();
+        *rng.pick(&opts)
+    };
+    let mut data = c.data.clone();
+    for (addr, t) in &c.pointers {
+        data[*addr..*addr + 4].copy_from_slice(&put32(big, *t));
+    }
+    for (addr, s) in &c.strings {
+        let off = place(rng, s);
+        data[*addr..*addr + 4].copy_from_slice(&put32(big, text_start + off));
+    }
+    let total = 0x20 + text_start + text.len();
+    let mut out: Vec<u8> = Vec::with_capacity(total);
+    out.extend_from_slice(&put32(big, total));
+    out.extend_from_slice(&put32(big, c.data.len()));
+    out.extend_from_slice(&put32(big, ptab.len()));
+    out.extend_from_slice(&put32(big, ltab.len()));
+    if rng.chance(1, 3) {
+        out.extend_from_slice(&rng.bytes(16));
+    } else {
+        out.extend_from_slice(&[0u8; 16]);
+    }
+    out.extend_from_slice(&data);
+    for x in &ptab {
+        out.extend_from_slice(&put32(big, *x));
+    }
+    for (x, n) in &ltab {
+        out.extend_from_slice(&put32(big, *x));
+        out.extend_from_slice(&put32(big, place(rng, n)));
+    }
+    out.extend_from_slice(&text);
+    assert_eq!(out.len(), total);
+    out
+}
+
+// ------------------------------------------------------------------------------------------------
+// generation
+// ------------------------------------------------------------------------------------------------
+
+fn end_tag(big: bool) -> &'static str {
+    if big {
+        "BE"
+    } else {
+        "LE"
+    }
+}
+
+fn codec_cases(lines: &mut Vec<String>, n: &mut usize) {
+    let alpha = alphabet();
+    // encode direction: every code point of the sub-alphabet, 12 per line, plus each one alone in a context
+    for chunk in alpha.chunks(12) {
+        let s: String = chunk.iter().collect();
+        lines.push(format!("c01.k{:05} codec {}", *n, hexs(&s)));
+        *n += 1;
+    }
+    // decode direction: every single byte and every double-byte code of the sub-alphabet
+    let mut codes: Vec<Vec<u8>> = Vec::new();
+    for ch in &alpha {
+        codes.push(sjis(&ch.to_string()));
+    }
+    for chunk in codes.chunks(12) {
+        let b: Vec<u8> = chunk.iter().flatten().cloned().collect();
+        lines.push(format!("c01.k{:05} decode {}", *n, hex(&b)));
+        *n += 1;
+    }
+    // every code point on its own line would be 346 more lines; the per-chunk lines already compare
+    // byte-for-byte, so a wrong table entry shows as a differing chunk.
+}
+
+fn mutate(img: &[u8], rng: &mut Rng) -> Vec<u8> {
+    let mut v = img.to_vec();
+    let special: [u32; 10] = [0, 1, 3, 4, 5, 0x20, 0x7fff_ffff, 0x8000_0000, 0xffff_fff0, 0xffff_ffff];
+    match rng.below(6) {
+        0 => {
+            let n = rng.below(v.len() as u64 + 1) as usize;
+            v.truncate(n);
+        }
+        1 | 2 if v.len() >= 16 => {
+            // plant a boundary value in a header field
+            let f = 4 * rng.below(4) as usize;
+            let val = if rng.chance(1, 2) {
+                *rng.pick(&special)
+            } else {
+                let cur = u32::from_le_bytes([v[f], v[f + 1], v[f + 2], v[f + 3]]);
+                cur.wrapping_add(rng.range(0, 8) as u32).wrapping_sub(4)
+            };
+            let b = if rng.chance(1, 2) { val.to_le_bytes() } else { val.to_be_bytes() };
+            v[f..f + 4].copy_from_slice(&b);
+        }
+        3 if !v.is_empty() => {
+            for _ in 0..rng.range(1, 4) {
+                let i = rng.below(v.len() as u64) as usize;
+                v[i] = rng.next() as u8;
+            }
+        }
+        4 if v.len() > 0x20 => {
+            // damage a table / data word
+            let i = 0x20 + rng.below((v.len() - 0x20) as u64) as usize;
+            let i = i - i % 4;
+            let val = *rng.pick(&special);
+            for (k, b) in val.to_le_bytes().iter().enumerate() {
+                if i + k < v.len() {
+                    v[i + k] = *b;
+                }
+            }
+        }
+        _ => {
+            let n = rng.range(0, 80) as usize;
+            v = rng.bytes(n);
+        }
+    }
+    v
+}
+
+/// All contents with <= `cells` cells over a 3-string alphabet (thorough small scope).
+fn exhaustive_small(lines: &mut Vec<String>, n: &mut usize) {
+    let strs = ["", "a", "ab"];
+    // per cell: none, string x3, pointer to {0, size}, c-string x2
+    for ncells in 0..=3usize {
+        let size = 4 * ncells;
+        let kinds = 8usize;
+        let total = kinds.pow(ncells as u32);
+        for code in 0..total {
+            for big in [false, true] {
+                let mut c = Content { big, data: (0..size).map(|i| (i * 37 + 1) as u8).collect(), ..Default::default() };
+                let mut k = code;
+                for cell in 0..ncells {
+                    let kind = k % kinds;
+                    k /= kinds;
+                    let addr = 4 * cell;
+                    match kind {
+                        0 => {}
+                        1..=3 => c.strings.push((addr, strs[kind - 1].to_string())),
+                        4 => c.pointers.push((addr, 0)),
+                        5 => c.pointers.push((addr, size)),
+                        _ => {
+                            let s = strs[kind - 5].to_string();
+                            match c.cstrings.iter_mut().find(|(t, _)| *t == s) {
+                                Some((_, b)) => b.push(addr),
+                                None => c.cstrings.push((s, vec![addr])),
+                            }
+                        }
+                    }
+                }
+                lines.push(format!("c01.x{:06} ser {} {}", *n, end_tag(big), c.fields(true)));
+                *n += 1;
+            }
+        }
+    }
+    // all big-endian archives with <= 4 labels over 2 names (every distribution over 3 addresses)
+    let names = ["X", "Y"];
+    for nl in 0..=4usize {
+        let total = (names.len() * 3).pow(nl as u32);
+        for code in 0..total {
+            let mut c = Content { big: true, data: vec![7; 8], ..Default::default() };
+            let mut k = code;
+            for _ in 0..nl {
+                let name = names[k % 2].to_string();
+                k /= 2;
+                let addr = 4 * (k % 3);
+                k /= 3;
+                match c.labels.iter_mut().find(|(a, _)| *a == addr) {
+                    Some((_, b)) => b.push(name),
+                    None => c.labels.push((addr, vec![name])),
+                }
+            }
+            lines.push(format!("c02.x{:06} ser BE {}", *n, c.fields(true)));
+            *n += 1;
+        }
+    }
+}
+
+pub fn gen(seed: u64, tier: &str) -> Vec<String> {
+    let thorough = tier == "thorough";
+    let mut rng = Rng::new(seed ^ 0xb15e_7001);
+    let mut lines: Vec<String> = Vec::new();
+    let mut n = 0usize;
+    codec_cases(&mut lines, &mut n);
+    if thorough {
+        lines.push(format!("c01.k{:05} faithful", n));
+    }
+    // fixed regression contents: D1 (string + c-string), D2 (big-endian equal buckets)
+    {
+        let d1 = Content {
+            big: false,
+            data: vec![0; 8],
+            strings: vec![(0, "hello".into())],
+            cstrings: vec![("cstr".into(), vec![4])],
+            ..Default::default()
+        };
+        lines.push(format!("c01.d1 ser LE {}", d1.fields(true)));
+        let d2 = Content {
+            big: true,
+            data: vec![0; 16],
+            labels: vec![(8, vec!["X".into()]), (0, vec!["X".into()]), (12, vec!["X".into()]), (4, vec!["X".into()])],
+            ..Default::default()
+        };
+        lines.push(format!("c02.d2 ser BE {}", d2.fields(true)));
+    }
+    let (n_ser, n_img, n_raw) = if thorough { (200_000, 100_000, 20_000) } else { (6_000, 3_000, 800) };
+    for i in 0..n_ser {
+        let max_cells = if i % 10 == 0 { 40 } else if i % 3 == 0 { 6 } else { 16 };
+        let c = gen_content(&mut rng, max_cells, true);
+        lines.push(format!("c01.s{:06} ser {} {}", i, end_tag(c.big), c.fields(true)));
+    }
+    // outside the domain: one string the codec cannot encode (model tie for the error path; oracle skips)
+    for i in 0..(if thorough { 600 } else { 60 }) {
+        let mut c = gen_content(&mut rng, 10, true);
+        let bad = format!("{}{}", rng.pick(&["a", "", "ｱ"]), rng.pick(&["é", "€", "😀", "ab\u{3b1}\u{7e6}"]));
+        assert!(SHIFT_JIS.encode(&bad).2);
+        match rng.below(3) {
+            0 if !c.strings.is_empty() => {
+                let k = rng.below(c.strings.len() as u64) as usize;
+                c.strings[k].1 = bad
+            }
+            1 if c.labels.iter().any(|l| !l.1.is_empty()) => {
+                let idx: Vec<usize> = (0..c.labels.len()).filter(|i| !c.labels[*i].1.is_empty()).collect();
+                let k = *rng.pick(&idx);
+                c.labels[k].1[0] = bad
+            }
+            _ if !c.cstrings.is_empty() && !c.cstrings.iter().any(|p| p.0 == bad) => {
+                let k = rng.below(c.cstrings.len() as u64) as usize;
+                c.cstrings[k].0 = bad
+            }
+            _ => continue,
+        }
+        lines.push(format!("c01.e{:06} ser {} {}", i, end_tag(c.big), c.fields(true)));
+    }
+    for i in 0..(if thorough { 300 } else { 30 }) {
+        let c = gen_content(&mut rng, 12, true);
+        lines.push(format!("c02.p{:06} serp {} {}", i, end_tag(c.big), c.fields(true)));
+    }
+    let mut images: Vec<(bool, Vec<u8>)> = Vec::new();
+    for i in 0..n_img {
+        let max_cells = if i % 10 == 0 { 40 } else if i % 3 == 0 { 5 } else { 14 };
+        let c = gen_content(&mut rng, max_cells, false);
+        let img = foreign_image(&c, &mut rng);
+        lines.push(format!("c01.f{:06} img {} {} {}", i, end_tag(c.big), hex(&img), c.fields(false)));
+        if images.len() < 400 {
+            images.push((c.big, img));
+        }
+    }
+    for i in 0..n_raw {
+        let (big, img) = rng.pick(&images).clone();
+        let m = mutate(&img, &mut rng);
+        let big = if rng.chance(1, 8) { !big } else { big };
+        lines.push(format!("c01.r{:06} raw {} {}", i, end_tag(big), hex(&m)));
+    }
+    // bounded-exhaustive small scopes (cheap: run in both tiers)
+    exhaustive_small(&mut lines, &mut n);
+    lines
+}
+
+// ------------------------------------------------------------------------------------------------
+// running the implementation
+// ------------------------------------------------------------------------------------------------
+
+fn run_ser(line: &str, f: &[&str]) -> String {
+    let c = Content::parse(f[2] == "BE", &f[3..], true);
+    let mut rng = Rng::new(fnv(line));
+    // >= 5 freshly built archives (fresh hash states), each through a different call order
+    let mut images: Vec<Result<Vec<u8>, String>> = Vec::new();
+    for _ in 0..5 {
+        let a = build(&c, &mut rng);
+        images.push(a.serialize().map_err(|e| err_class(&e).to_string()));
+        if images.len() == 1 {
+            // and the same archive again
+            images.push(a.serialize().map_err(|e| err_class(&e).to_string()));
+        }
+    }
+    let first = images[0].clone();
+    let det = images.iter().all(|x| *x == first);
+    let img = match first {
+        Err(e) => return format!("err {} det={}", e, det as u8),
+        Ok(v) => v,
+    };
+    let mut c_cells: Vec<usize> = c.cstrings.iter().flat_map(|p| p.1.iter().cloned()).collect();
+    c_cells.sort();
+    let tail = match BinArchive::from_bytes(&img, c.endian()) {
+        Err(e) => format!("parse-err {}", err_class(&e)),
+        Ok(b) => {
+            let re = match b.serialize() {
+                Ok(v) => (v == img) as u8,
+                Err(_) => 0,
+            };
+            format!("re={} {}", re, observe(&b, &c_cells))
+        }
+    };
+    format!("ok img={} det={} {}", hex(&img), det as u8, tail)
+}
+
+/// Does the parsed archive hold text outside the sub-alphabet the Lean driver can decode?
+fn foreign_text(b: &BinArchive) -> bool {
+    let alpha = alphabet();
+    let inside = |s: &str| s.chars().all(|c| alpha.contains(&c));
+    let size = b.size();
+    for addr in 0..size {
+        if addr + 4 > size {
+            break;
+        }
+        if let Some(t) = b.read_string(addr).unwrap() {
+            if !inside(&t) {
+                return true;
+            }
+        }
+    }
+    b.all_labels().iter().any(|(_, n)| !inside(n))
+}
+
+/// `ser` repeated in 4 fresh processes (fresh per-process hash seeds): all four must print the same line.
+fn run_serp(line: &str, f: &[&str]) -> String {
+    let here = run_ser(&line.replacen(" serp ", " ser ", 1), f);
+    let exe = std::env::current_exe().unwrap();
+    // <worktree>/work/target/<profile>/mila-harness  ->  <worktree>/work
+    let work = exe.parent().and_then(|p| p.parent()).and_then(|p| p.parent()).unwrap().to_path_buf();
+    let tag = format!("binser-proc-{}-{}", std::process::id(), fnv(line));
+    let cases = work.join(format!("{}.cases", tag));
+    std::fs::write(&cases, line.replacen(" serp ", " ser ", 1) + "\n").unwrap();
+    let mut same = true;
+    for i in 0..4 {
+        let out = work.join(format!("{}.{}.out", tag, i));
+        let st = std::process::Command::new(&exe).arg("run").arg("binser").arg(&cases).arg(&out).status();
+        let text = std::fs::read_to_string(&out).unwrap_or_default();
+        let _ = std::fs::remove_file(&out);
+        let payload = text.trim_end().splitn(2, ' ').nth(1).unwrap_or("").to_string();
+        if st.map(|s| !s.success()).unwrap_or(true) || payload != here {
+            same = false;
+        }
+    }
+    let _ = std::fs::remove_file(&cases);
+    format!("{} procs={}", here, same as u8)
+}
+
+fn run_img(f: &[&str]) -> String {
+    let big = f[2] == "BE";
+    let img = unhex(f[3]);
+    match BinArchive::from_bytes(&img, if big { Endian::Big } else { Endian::Little }) {
+        Err(e) => format!("err {}", err_class(&e)),
+        Ok(b) => {
+            if f[1] == "raw" && foreign_text(&b) {
+                return "ok foreign-text".to_string();
+            }
+            let re = match b.serialize() {
+                Ok(v) => hex(&v),
+                Err(e) => format!("!{}", err_class(&e)),
+            };
+            format!("ok re={} {}", re, observe(&b, &[]))
+        }
+    }
 }
 
 pub fn run_line(_st: &mut super::State, line: &str) -> String {
-    let id = line.split(' ').next().unwrap_or("?");
-    format!("{} unimplemented", id)
+    let f: Vec<&str> = line.split(' ').collect();
+    let id = f[0];
+    let out = match no_panic(|| match f[1] {
+        "codec" => {
+            let s = unhexs(f[2]);
+            let (b, _, bad) = SHIFT_JIS.encode(&s);
+            if bad {
+                "err Encoding".to_string()
+            } else {
+                let (d, _, _) = SHIFT_JIS.decode(&b);
+                format!("ok {} {}", hex(&b), hexs(&d))
+            }
+        }
+        "decode" => {
+            let b = unhex(f[2]);
+            let (d, _, _) = SHIFT_JIS.decode(&b);
+            format!("ok {}", hexs(&d))
+        }
+        "faithful" => faithful_report(),
+        "ser" => run_ser(line, &f),
+        "serp" => run_serp(line, &f),
+        "img" | "raw" => run_img(&f),
+        _ => "bad-case".to_string(),
+    }) {
+        Ok(s) => s,
+        Err(_) => "panic".to_string(),
+    };
+    format!("{} {}", id, out)
 }
